@@ -31,11 +31,12 @@ impl Sut for LcSut {
     fn new(cfg: &Value) -> Self {
         let ne = cfg["ne"].as_u64().unwrap() as usize;
         let d = cfg["d"].as_u64().unwrap_or(12);
-        let (c, en, ed) = if let Some(w) = cfg["width"].as_u64() {
-            (LossyCounter::with_width(w as usize), 1, w)
-        } else {
-            let (en, ed) = (cfg["eps_num"].as_u64().unwrap(), cfg["eps_den"].as_u64().unwrap());
+        // eps_num / eps_den win over width (the small models carry their width and get the epsilon as an extra)
+        let (c, en, ed) = if let (Some(en), Some(ed)) = (cfg["eps_num"].as_u64(), cfg["eps_den"].as_u64()) {
             (LossyCounter::with_epsilon(en as f64 / ed as f64), en, ed)
+        } else {
+            let w = cfg["width"].as_u64().unwrap();
+            (LossyCounter::with_width(w as usize), 1, w)
         };
         LcSut { c, ne, d, en, ed, ghost: vec![0; ne] }
     }
